@@ -103,3 +103,60 @@ package nilness
 //@   modifies s.m, s.cloned
 //@   ensures  [key]    typeutil.IsPointerLike(key.Type()) && value != mk(ValueNilness, 0, 0) ==> val(s.m, key) == value
 //@   ensures  [others] forall w ir.Value :: {val(s.m, w)} w != key ==> val(s.m, w) == val(old(s.m), w)
+// setInner / setOuter change one component of the valuation at key and nothing else. Precondition
+// (holds for every caller in processBlock, which is not under contract): the key either has an
+// entry of its own, or lies beyond the stored entries, or has no type-specific default — a key
+// whose entry was only zero-filled AND has a default would lose the other component's default.
+//@ func (*state).setInner
+//@   requires s != nil
+//@   requires num(key) >= len(s.m) || s.m[num(key)] != mk(ValueNilness, 0, 0) || dflt(key) == mk(ValueNilness, 0, 0)
+//@   modifies s.m, s.cloned
+//@   ensures  [key]    typeutil.IsPointerLike(key.Type()) && value != 0 ==> val(s.m, key).Inner == value && val(s.m, key).Outer == val(old(s.m), key).Outer
+//@   ensures  [others] forall w ir.Value :: {val(s.m, w)} w != key ==> val(s.m, w) == val(old(s.m), w)
+//@ func (*state).setOuter
+//@   requires s != nil
+//@   requires num(key) >= len(s.m) || s.m[num(key)] != mk(ValueNilness, 0, 0) || dflt(key) == mk(ValueNilness, 0, 0)
+//@   modifies s.m, s.cloned
+//@   ensures  [key]    typeutil.IsPointerLike(key.Type()) && value != 0 ==> val(s.m, key).Outer == value && val(s.m, key).Inner == val(old(s.m), key).Inner
+//@   ensures  [others] forall w ir.Value :: {val(s.m, w)} w != key ==> val(s.m, w) == val(old(s.m), w)
+
+//@ extern go/types.IsInterface(t types.Type) bool
+//@   pure
+// normalize only replaces "no information" by "may be nil" (and drops the inner component of
+// non-interfaces); it never makes a fact more precise
+//@ func normalize
+//@   ensures [outer] result.Outer == (v.Outer == 0 ? MaybeNil : v.Outer)
+//@   ensures [inner] result.Inner == ((v.Inner == 0 || !types.IsInterface(typ)) ? MaybeNil : v.Inner)
+
+// ---- local soundness of the transfer rule for calls of builtins (handleReturnValue) ----
+//@ extern (*honnef.co/go/tools/go/ir.Call).Common() *ir.CallCommon
+//@   pure
+//@ extern (*honnef.co/go/tools/go/ir.CallCommon).Signature() *types.Signature
+//@   pure
+//@ extern (*go/types.Signature).Results() *types.Tuple
+//@   pure
+//@ extern (*go/types.Tuple).At(i int) *types.Var
+//@   pure
+//@ extern (*go/types.object).Type() types.Type
+//@   pure
+//@ extern (*honnef.co/go/tools/go/ir.Builtin).Name() string
+//@   pure
+// Concrete semantics of the builtins that can yield pointer-like values (TRUSTED, from the
+// language specification and the documentation of package unsafe): for a non-panicking call,
+// may the result be nil / non-nil, given whether the first operand is nil (c0: 0 nil, 1 non-nil)?
+//@ ghost canBe(name string, c0 int, c int) bool = (name == "UnsafeStringData" || name == "UnsafeAdd" || name == "recover") ? true : ((name == "ssa:deferstack" || name == "ssa:wrapnilchk") ? c == 1 : ((name == "UnsafeSlice" || name == "UnsafeSliceData") ? c == c0 : (name == "append" ? (c == 1 || c0 == 0) : true)))
+// the rule the analysis applies: abstract result as a function of the builtin and of the abstract
+// value a0 of its first operand (0 = no information yet: the result is left untouched)
+//@ ghost absBuiltin(name string, a0 Nilness) Nilness = (name == "UnsafeStringData" || name == "UnsafeAdd" || name == "recover") ? MaybeNil : ((name == "ssa:deferstack" || name == "ssa:wrapnilchk") ? NeverNil : ((name == "UnsafeSlice" || name == "UnsafeSliceData") ? a0 : (a0 == AlwaysNil ? MaybeNil : a0)))
+// (1) the rule is sound w.r.t. the concrete semantics
+//@ lemma builtin_rule_sound(name string, a0 Nilness, c0 int, c int)
+//@   requires (name == "UnsafeStringData" || name == "UnsafeAdd" || name == "recover" || name == "ssa:deferstack" || name == "ssa:wrapnilchk" || name == "UnsafeSlice" || name == "UnsafeSliceData" || name == "append")
+//@   requires wfN(a0) && a0 != 0 && (c0 == 0 || c0 == 1) && (c == 0 || c == 1) && gam(a0, c0) && canBe(name, c0, c)
+//@   ensures  gam(absBuiltin(name, a0), c)
+// (2) the code implements the rule
+//@ func impl$1$1
+//@   requires dflt(v) == mk(ValueNilness, 0, 0)
+//@   nosafe   all
+//@   may_panic
+//@   modifies heap, s
+//@   ensures  [rule] istype(old(call.Call.Value), *ir.Builtin) && typeutil.IsPointerLike(call.Common().Signature().Results().At(idx).Type()) && typeutil.IsPointerLike(v.Type()) && old(len(call.Call.Args)) >= 1 && val(old(s.m), old(call.Call.Args[0])).Outer != 0 && wfN(val(old(s.m), old(call.Call.Args[0])).Outer) && absBuiltin(astype(old(call.Call.Value), *ir.Builtin).Name(), val(old(s.m), old(call.Call.Args[0])).Outer) != 0 ==> val(s.m, v).Outer == absBuiltin(astype(old(call.Call.Value), *ir.Builtin).Name(), val(old(s.m), old(call.Call.Args[0])).Outer)
